@@ -31,66 +31,96 @@ Qed.
 (* ------------------------------------------------------------------ *)
 (* prune                                                               *)
 (* ------------------------------------------------------------------ *)
-Fixpoint prune (P : path -> bool) (p : path) (t : value) {struct t} : value :=
+Fixpoint prune (del : bool) (P : path -> bool) (p : path) (t : value) {struct t} : value :=
   if P p then VAtom ANone else
   match t with
   | VList xs =>
       VList ((fix go (l : list value) (i : nat) : list value :=
-                match l with [] => [] | x :: r => prune P (snoc p (PIdx i)) x :: go r (S i) end) xs 0)
+                match l with [] => [] | x :: r => prune del P (snoc p (PIdx i)) x :: go r (S i) end) xs 0)
   | VTuple xs =>
       VTuple ((fix go (l : list value) (i : nat) : list value :=
-                 match l with [] => [] | x :: r => prune P (snoc p (PIdx i)) x :: go r (S i) end) xs 0)
+                 match l with [] => [] | x :: r => prune del P (snoc p (PIdx i)) x :: go r (S i) end) xs 0)
   | VDict kvs =>
       VDict ((fix go (l : list (atom * value)) : list (atom * value) :=
-                match l with [] => [] | (k, v) :: r => (k, prune P (snoc p (PKey k)) v) :: go r end) kvs)
+                match l with
+                | [] => []
+                | (k, v) :: r => if del && P (snoc p (PKey k)) then go r
+                                 else (k, prune del P (snoc p (PKey k)) v) :: go r
+                end) kvs)
   | _ => t
   end.
 
 Definition pl (f : path -> value -> value) (p : path) :=
   fix go (l : list value) (i : nat) : list value :=
     match l with [] => [] | x :: r => f (snoc p (PIdx i)) x :: go r (S i) end.
-Definition pd (f : path -> value -> value) (p : path) :=
+Definition pd (del : bool) (P : path -> bool) (f : path -> value -> value) (p : path) :=
   fix go (l : list (atom * value)) : list (atom * value) :=
-    match l with [] => [] | (k, v) :: r => (k, f (snoc p (PKey k)) v) :: go r end.
+    match l with
+    | [] => []
+    | (k, v) :: r => if del && P (snoc p (PKey k)) then go r else (k, f (snoc p (PKey k)) v) :: go r
+    end.
 
 Section Prune.
+Variable del : bool.
 Variable P : path -> bool.
+Notation prune := (prune del P).
+Definition dropped (p : path) (k : atom) : bool := del && P (snoc p (PKey k)).
 
-Lemma prune_skip p t : P p = true -> prune P p t = VAtom ANone.
+Lemma prune_skip p t : P p = true -> prune p t = VAtom ANone.
 Proof. intros H. destruct t; cbn; rewrite H; reflexivity. Qed.
-Lemma prune_atom p a : P p = false -> prune P p (VAtom a) = VAtom a.
+Lemma prune_atom p a : P p = false -> prune p (VAtom a) = VAtom a.
 Proof. intros H. cbn. rewrite H. reflexivity. Qed.
-Lemma prune_list p xs : P p = false -> prune P p (VList xs) = VList (pl (prune P) p xs 0).
+Lemma prune_list p xs : P p = false -> prune p (VList xs) = VList (pl prune p xs 0).
 Proof. intros H. cbn. rewrite H. reflexivity. Qed.
-Lemma prune_tuple p xs : P p = false -> prune P p (VTuple xs) = VTuple (pl (prune P) p xs 0).
+Lemma prune_tuple p xs : P p = false -> prune p (VTuple xs) = VTuple (pl prune p xs 0).
 Proof. intros H. cbn. rewrite H. reflexivity. Qed.
-Lemma prune_dict p kvs : P p = false -> prune P p (VDict kvs) = VDict (pd (prune P) p kvs).
+Lemma prune_dict p kvs : P p = false -> prune p (VDict kvs) = VDict (pd del P prune p kvs).
 Proof. intros H. cbn. rewrite H. reflexivity. Qed.
-Lemma prune_set p xs : P p = false -> prune P p (VSet xs) = VSet xs.
+Lemma prune_set p xs : P p = false -> prune p (VSet xs) = VSet xs.
 Proof. intros H. cbn. rewrite H. reflexivity. Qed.
-Lemma prune_frozen p xs : P p = false -> prune P p (VFrozen xs) = VFrozen xs.
+Lemma prune_frozen p xs : P p = false -> prune p (VFrozen xs) = VFrozen xs.
 Proof. intros H. cbn. rewrite H. reflexivity. Qed.
 
-Lemma prune_type p t : P p = false -> type_of (prune P p t) = type_of t.
+Lemma prune_type p t : P p = false -> type_of (prune p t) = type_of t.
+Proof. intros H. destruct t; cbn; rewrite H; reflexivity. Qed.
+
+Lemma prune_is_atom p t : P p = false -> is_atom (prune p t) = is_atom t.
 Proof. intros H. destruct t; cbn; rewrite H; reflexivity. Qed.
 
 Lemma pl_length f p l : forall i, length (pl f p l i) = length l.
 Proof. induction l as [|x l IH]; intros i; cbn; [reflexivity|]. rewrite IH. reflexivity. Qed.
 
-Lemma pd_keys f p l : map fst (pd f p l) = map fst l.
-Proof. induction l as [|[k v] l IH]; cbn; [reflexivity|]. rewrite IH. reflexivity. Qed.
+(* a list of atoms none of whose positions is skipped is left alone *)
+Lemma pl_atoms p l : (forall i, P (snoc p (PIdx i)) = false) -> forallb is_atom l = true ->
+  forall i, pl prune p l i = l.
+Proof.
+  intros F. induction l as [|x l IH]; intros A i; cbn; [reflexivity|]. cbn in A. apply andb_true_iff in A as [Ax A].
+  rewrite (IH A). destruct x; try discriminate. rewrite prune_atom by apply F. reflexivity.
+Qed.
+Lemma pl_is_atom p l : (forall i, P (snoc p (PIdx i)) = false) ->
+  forall i, forallb is_atom (pl prune p l i) = forallb is_atom l.
+Proof.
+  intros F. induction l as [|x l IH]; intros i; cbn; [reflexivity|]. rewrite IH, prune_is_atom by apply F. reflexivity.
+Qed.
 
-Lemma keys_of_pd c f p l : keys_of c (pd f p l) = keys_of c l.
-Proof. unfold keys_of. rewrite pd_keys. reflexivity. Qed.
+Lemma pd_keys f p l : map fst (pd del P f p l) = filter (fun k => negb (dropped p k)) (map fst l).
+Proof.
+  induction l as [|[k v] l IH]; cbn; [reflexivity|]. unfold dropped at 1.
+  destruct (del && P (snoc p (PKey k))); cbn; rewrite IH; reflexivity.
+Qed.
+
+Lemma keys_of_pd c f p l :
+  keys_of c (pd del P f p l) = filter (fun k => negb (dropped p k)) (keys_of c l).
+Proof. unfold keys_of. rewrite pd_keys. apply filter_comm. Qed.
 
 Lemma assoc_pd f p k l :
-  key_plain k = true -> forallb (fun kv => key_plain (fst kv)) l = true ->
-  assoc k (pd f p l) = option_map (f (snoc p (PKey k))) (assoc k l).
+  key_plain k = true -> forallb (fun kv => key_plain (fst kv)) l = true -> dropped p k = false ->
+  assoc k (pd del P f p l) = option_map (f (snoc p (PKey k))) (assoc k l).
 Proof.
-  intros Hk. induction l as [|[k0 v] l IH]; cbn; [reflexivity|]. intros H.
+  intros Hk. induction l as [|[k0 v] l IH]; cbn; [reflexivity|]. intros H D.
   apply andb_true_iff in H as [H0 H]. destruct (py_eq k0 k) eqn:E.
-  - apply (py_eq_plain k0 k H0 Hk) in E. subst k0. reflexivity.
-  - apply IH. exact H.
+  - apply (py_eq_plain k0 k H0 Hk) in E. subst k0. unfold dropped in D. rewrite D. cbn. rewrite py_eq_refl. reflexivity.
+  - destruct (del && P (snoc p (PKey k0))); [apply IH; assumption|]. cbn. rewrite E. apply IH; assumption.
 Qed.
 End Prune.
 
@@ -213,31 +243,41 @@ Variable udiff : pystr -> pystr -> pystr.
 Variable ops : path -> list value -> list value -> list opcode.
 Variable P E : path -> bool.
 Variable c : cfg.
-Hypothesis Hzip : zip c = true.
+Variable del : bool.
+Hypothesis Hmode : zip c = true \/ idx_closed P.
+Hypothesis Hdel : del = false \/ thr_num c = 0.
 Notation dX := (diffx hatom udiff ops P E no_kf c).
 Notation kp := (keys_all key_plain).
+Notation prune := (prune del P).
 
-(* stated for a level that may itself be skipped: then both runs return nothing *)
-Definition Ind (t1 : value) : Prop := forall t2 p1 p2, kp t1 = true -> kp t2 = true ->
-  projs (fst (dX t1 t2 p1 p2)) = projs (fst (dX (prune P p1 t1) (prune P p1 t2) p1 p2)).
+(* the level is skipped itself, or no ancestor is *)
+Definition live (p : path) : Prop := P p = true \/ not_under P p = true.
+
+Lemma live_child p k : not_under P p = true -> live (snoc p k).
+Proof.
+  intros H. unfold live. rewrite not_under_snoc, H. destruct (P (snoc p k)); [left|right]; reflexivity.
+Qed.
+
+Definition Ind (t1 : value) : Prop := forall t2 p1 p2, live p1 -> kp t1 = true -> kp t2 = true ->
+  projs (fst (dX t1 t2 p1 p2)) = projs (fst (dX (prune p1 t1) (prune p1 t2) p1 p2)).
 
 Lemma ind_skipped t1 t2 p1 p2 : P p1 = true ->
-  projs (fst (dX t1 t2 p1 p2)) = projs (fst (dX (prune P p1 t1) (prune P p1 t2) p1 p2)).
+  projs (fst (dX t1 t2 p1 p2)) = projs (fst (dX (prune p1 t1) (prune p1 t2) p1 p2)).
 Proof. intros H. rewrite !diffx_skip by exact H. reflexivity. Qed.
 
-Lemma list_ind p1 p2 xs : Forall Ind xs ->
+Lemma list_ind p1 p2 xs : not_under P p1 = true -> Forall Ind xs ->
   forall ys i, forallb kp xs = true -> forallb kp ys = true ->
   projs (fst (gox_list P dX p1 p2 xs ys i)) =
-  projs (fst (gox_list P dX p1 p2 (pl (prune P) p1 xs i) (pl (prune P) p1 ys i) i)).
+  projs (fst (gox_list P dX p1 p2 (pl prune p1 xs i) (pl prune p1 ys i) i)).
 Proof.
-  induction 1 as [|x xs Hx _ IH]; intros ys i K1 K2.
+  intros NU. induction 1 as [|x xs Hx _ IH]; intros ys i K1 K2.
   - cbn [pl gox_list fst]. apply projs_added_from. rewrite pl_length. reflexivity.
   - destruct ys as [|y ys].
-    + cbn [pl gox_list fst]. apply (projs_removed_from P (x :: xs) (prune P (snoc p1 (PIdx i)) x :: pl (prune P) p1 xs (S i))).
+    + cbn [pl gox_list fst]. apply (projs_removed_from P (x :: xs) (prune (snoc p1 (PIdx i)) x :: pl prune p1 xs (S i))).
       cbn. rewrite pl_length. reflexivity.
     + cbn [pl gox_list]. unfold app2. cbn [fst]. rewrite !map_app.
       cbn [forallb] in K1, K2. apply andb_true_iff in K1 as [Kx K1]. apply andb_true_iff in K2 as [Ky K2].
-      f_equal; [apply Hx; assumption|apply IH; assumption].
+      f_equal; [apply Hx; [apply live_child; exact NU|assumption|assumption]|apply IH; assumption].
 Qed.
 
 Lemma assoc_kp k kvs v : forallb (fun kv => key_plain (fst kv) && kp (snd kv)) kvs = true ->
@@ -261,74 +301,152 @@ Proof.
   rewrite forallb_forall in F. apply F in Hin. cbn in Hin. apply andb_true_iff in Hin as [H _]. exact H.
 Qed.
 
-Lemma common_ind p1 p2 kvs2 l :
+Notation keepk p := (fun k => negb (dropped del P p k)).
+
+(* membership in a plain key list does not see the dropped keys of another name *)
+Lemma mem_keepk p k K : key_plain k = true -> (forall a, In a K -> key_plain a = true) ->
+  dropped del P p k = false -> mem_atom k (filter (keepk p) K) = mem_atom k K.
+Proof.
+  intros Hk HK D. unfold mem_atom. induction K as [|a K IH]; cbn; [reflexivity|].
+  assert (IH' := IH (fun x Hx => HK x (or_intror Hx))).
+  destruct (py_eq k a) eqn:Eq.
+  - apply (py_eq_plain k a Hk (HK a (or_introl eq_refl))) in Eq. subst a. rewrite D. cbn. rewrite py_eq_refl. reflexivity.
+  - destruct (negb (dropped del P p a)); cbn; [rewrite Eq|]; exact IH'.
+Qed.
+
+Lemma added_ind p1 p2 K1 K2 kvs kvs' :
+  (forall a, In a K1 -> key_plain a = true) -> (forall a, In a K2 -> key_plain a = true) ->
+  projs (added_x P K1 K2 kvs p1 p2) =
+  projs (added_x P (filter (keepk p1) K1) (filter (keepk p1) K2) kvs' p1 p2).
+Proof.
+  intros H1 H2. unfold added_x. induction K2 as [|k K2 IH]; [reflexivity|].
+  assert (IH' := IH (fun x Hx => H2 x (or_intror Hx))). cbn [flat_map filter]. rewrite map_app, IH'.
+  destruct (dropped del P p1 k) eqn:D; cbn [negb].
+  - unfold dropped in D. apply andb_true_iff in D as [_ D].
+    destruct (mem_atom k K1); [reflexivity|]. unfold report. rewrite D. reflexivity.
+  - cbn [flat_map]. rewrite map_app. f_equal.
+    rewrite (mem_keepk p1 k K1 (H2 k (or_introl eq_refl)) H1 D). destruct (mem_atom k K1); [reflexivity|apply projs_report].
+Qed.
+
+Lemma removed_ind p1 p2 K1 K2 kvs kvs' :
+  (forall a, In a K1 -> key_plain a = true) -> (forall a, In a K2 -> key_plain a = true) ->
+  projs (removed_x P K1 K2 kvs p1 p2) =
+  projs (removed_x P (filter (keepk p1) K1) (filter (keepk p1) K2) kvs' p1 p2).
+Proof.
+  intros H1 H2. unfold removed_x. induction K1 as [|k K1 IH]; [reflexivity|].
+  assert (IH' := IH (fun x Hx => H1 x (or_intror Hx))). cbn [flat_map filter]. rewrite map_app, IH'.
+  destruct (dropped del P p1 k) eqn:D; cbn [negb].
+  - unfold dropped in D. apply andb_true_iff in D as [_ D].
+    destruct (mem_atom k K2); [reflexivity|]. unfold report. rewrite D. reflexivity.
+  - cbn [flat_map]. rewrite map_app. f_equal.
+    rewrite (mem_keepk p1 k K2 (H1 k (or_introl eq_refl)) H2 D). destruct (mem_atom k K2); [reflexivity|apply projs_report].
+Qed.
+
+Lemma common_ind p1 p2 kvs2 l : not_under P p1 = true ->
   forallb (fun kv => key_plain (fst kv) && kp (snd kv)) kvs2 = true ->
   Forall (fun kv => Ind (snd kv)) l ->
   forallb (fun kv => key_plain (fst kv) && kp (snd kv)) l = true ->
   projs (fst (gox_common no_kf c dX kvs2 (keys_of c kvs2) p1 p2 l)) =
-  projs (fst (gox_common no_kf c dX (pd (prune P) p1 kvs2) (keys_of c kvs2) p1 p2 (pd (prune P) p1 l))).
+  projs (fst (gox_common no_kf c dX (pd del P prune p1 kvs2) (filter (keepk p1) (keys_of c kvs2)) p1 p2
+                (pd del P prune p1 l))).
 Proof.
-  intros K2 F. induction F as [|[k v1] l Hx _ IH]; intros K1; [reflexivity|].
+  intros NU K2 F. induction F as [|[k v1] l Hx _ IH]; intros K1; [reflexivity|].
   cbn [forallb fst snd] in K1. apply andb_true_iff in K1 as [Kk K1]. apply andb_true_iff in Kk as [Kk Kv].
-  specialize (IH K1). cbn [snd] in Hx. cbn [pd gox_common].
-  destruct (keep_key c k && negb (no_kf p1 k)); [|exact IH].
-  destruct (find (py_eq k) (keys_of c kvs2)) as [k'|] eqn:Fd; [|exact IH].
-  destruct (find_in _ _ _ Fd) as [Hin Pk].
-  assert (Kk' : key_plain k' = true) by (exact (keys_of_plain kvs2 k' K2 Hin)).
-  assert (k = k') by (apply py_eq_plain; assumption). subst k'.
-  rewrite (assoc_pd (prune P) p1 k kvs2 Kk (keys_plain_of kvs2 K2)).
-  destruct (assoc k kvs2) as [v2|] eqn:A; cbn [option_map]; [|exact IH].
-  unfold app2. cbn [fst]. rewrite !map_app. f_equal; [|exact IH].
-  apply Hx; [exact Kv|exact (assoc_kp k kvs2 v2 K2 A)].
+  specialize (IH K1). cbn [snd] in Hx. cbn [pd]. fold (dropped del P p1 k).
+  destruct (dropped del P p1 k) eqn:D.
+  - (* the pair is deleted on the right; on the left its level is skipped *)
+    unfold dropped in D. apply andb_true_iff in D as [_ D]. cbn [gox_common].
+    destruct (keep_key c k && negb (no_kf p1 k)); [|exact IH].
+    destruct (find (py_eq k) (keys_of c kvs2)) as [k'|] eqn:Fd; [|exact IH].
+    destruct (find_in _ _ _ Fd) as [Hin Pk].
+    assert (k = k') by (apply py_eq_plain; [exact Kk|exact (keys_of_plain kvs2 k' K2 Hin)|exact Pk]). subst k'.
+    destruct (assoc k kvs2) as [v2|]; [|exact IH].
+    rewrite diffx_skip by exact D. unfold app2. cbn [fst app]. exact IH.
+  - cbn [gox_common].
+    destruct (keep_key c k && negb (no_kf p1 k)); [|exact IH].
+    destruct (find (py_eq k) (keys_of c kvs2)) as [k'|] eqn:Fd.
+    2:{ rewrite find_filter_none by exact Fd. exact IH. }
+    destruct (find_in _ _ _ Fd) as [Hin Pk].
+    assert (k = k') by (apply py_eq_plain; [exact Kk|exact (keys_of_plain kvs2 k' K2 Hin)|exact Pk]). subst k'.
+    rewrite (find_filter_keep (py_eq k) (keepk p1) _ k Fd) by (rewrite D; reflexivity).
+    rewrite (assoc_pd del P prune p1 k kvs2 Kk (keys_plain_of kvs2 K2) D).
+    destruct (assoc k kvs2) as [v2|] eqn:A; cbn [option_map]; [|exact IH].
+    unfold app2. cbn [fst]. rewrite !map_app. f_equal; [|exact IH].
+    apply Hx; [apply live_child; exact NU|exact Kv|exact (assoc_kp k kvs2 v2 K2 A)].
 Qed.
 
 Theorem ind_all t1 : Ind t1.
 Proof.
-  induction t1 as [a|xs IH|xs IH|kvs IH|xs|xs] using value_ind'; intros t2 p1 p2 K1 K2;
+  induction t1 as [a|xs IH|xs IH|kvs IH|xs|xs] using value_ind'; intros t2 p1 p2 L K1 K2;
   (destruct (P p1) eqn:S; [apply ind_skipped; exact S|]);
+  (assert (NU : not_under P p1 = true) by (destruct L as [L|L]; [congruence|exact L]));
   (match goal with |- projs (fst (diffx _ _ _ _ _ _ _ ?t1 _ _ _)) = _ =>
      destruct (ty_eqb (type_of t1) (type_of t2)) eqn:T end;
     [|rewrite !diffx_type by (rewrite ?prune_type by exact S; assumption); cbn [fst]; apply projs_report]);
   apply same_type_shape in T; inversion T; subst.
   - rewrite !prune_atom by exact S. reflexivity.
-  - rewrite !prune_list by exact S. rewrite !diffx_list by exact S. unfold seqx_body. rewrite Hzip. cbn [negb andb].
-    cbn [keys_all] in K1, K2. apply list_ind; assumption.
-  - rewrite !prune_tuple by exact S. rewrite !diffx_tuple by exact S. unfold seqx_body. rewrite Hzip. cbn [negb andb].
-    cbn [keys_all] in K1, K2. apply list_ind; assumption.
+  - rewrite !prune_list by exact S. rewrite !diffx_list by exact S. unfold seqx_body.
+    cbn [keys_all] in K1, K2.
+    destruct Hmode as [Z|I].
+    + rewrite Z. cbn [negb andb]. apply list_ind; assumption.
+    + assert (Fr : forall i, P (snoc p1 (PIdx i)) = false) by (intros i; apply I; exact NU).
+      rewrite !(pl_is_atom del P p1 _ Fr).
+      destruct (negb (zip c) && forallb is_atom xs && forallb is_atom ys) eqn:D; [|apply list_ind; assumption].
+      apply andb_true_iff in D as [D Ay]. apply andb_true_iff in D as [_ Ax].
+      rewrite !(pl_atoms del P p1 _ Fr) by assumption. reflexivity.
+  - rewrite !prune_tuple by exact S. rewrite !diffx_tuple by exact S. unfold seqx_body.
+    cbn [keys_all] in K1, K2.
+    destruct Hmode as [Z|I].
+    + rewrite Z. cbn [negb andb]. apply list_ind; assumption.
+    + assert (Fr : forall i, P (snoc p1 (PIdx i)) = false) by (intros i; apply I; exact NU).
+      rewrite !(pl_is_atom del P p1 _ Fr).
+      destruct (negb (zip c) && forallb is_atom xs && forallb is_atom ys) eqn:D; [|apply list_ind; assumption].
+      apply andb_true_iff in D as [D Ay]. apply andb_true_iff in D as [_ Ax].
+      rewrite !(pl_atoms del P p1 _ Fr) by assumption. reflexivity.
   - rewrite !prune_dict by exact S. rewrite !diffx_dict by exact S. unfold dictx_body.
     rewrite !keys_x_no_kf, !keys_of_pd. cbn [keys_all] in K1, K2.
-    destruct (dict_shortcut E c (keys_of c kvs) (keys_of c ys) p1).
+    assert (SC : dict_shortcut E c (filter (keepk p1) (keys_of c kvs)) (filter (keepk p1) (keys_of c ys)) p1 =
+                 dict_shortcut E c (keys_of c kvs) (keys_of c ys) p1).
+    { destruct Hdel as [D|T0].
+      - unfold dropped. rewrite D. cbn [andb negb]. rewrite !filter_true. reflexivity.
+      - rewrite !shortcut_thr0 by exact T0. reflexivity. }
+    rewrite SC. destruct (dict_shortcut E c (keys_of c kvs) (keys_of c ys) p1).
     + cbn [fst]. apply projs_report.
-    + cbn [fst]. rewrite !map_app. f_equal; [apply projs_added_x|]. f_equal; [apply projs_removed_x|].
-      apply common_ind; assumption.
+    + cbn [fst]. rewrite !map_app. f_equal; [|f_equal].
+      * apply added_ind; intros a Ha; [exact (keys_of_plain kvs a K1 Ha)|exact (keys_of_plain ys a K2 Ha)].
+      * apply removed_ind; intros a Ha; [exact (keys_of_plain kvs a K1 Ha)|exact (keys_of_plain ys a K2 Ha)].
+      * apply common_ind; assumption.
   - rewrite !prune_set by exact S. reflexivity.
   - rewrite !prune_frozen by exact S. reflexivity.
 Qed.
 End Indep.
 
-(* DeepDiff(t1, t2, <exclusion P>) in positional mode, any threshold *)
-Theorem exclude_independent hatom udiff ops P E c t1 t2 :
-  zip c = true -> keys_all key_plain t1 = true -> keys_all key_plain t2 = true ->
+(* DeepDiff(t1, t2, <exclusion P>): positional mode, or default mode with no skipped path ending in an index;
+   any threshold when keys are kept (del = false), threshold 0 when the skipped dict items are deleted *)
+Theorem exclude_independent hatom udiff ops P E c del t1 t2 :
+  zip c = true \/ idx_closed P -> del = false \/ thr_num c = 0 ->
+  keys_all key_plain t1 = true -> keys_all key_plain t2 = true ->
   projs (fst (run_diff hatom udiff ops P E c t1 t2)) =
-  projs (fst (run_diff hatom udiff ops P E c (prune P [] t1) (prune P [] t2))).
+  projs (fst (run_diff hatom udiff ops P E c (prune del P [] t1) (prune del P [] t2))).
 Proof.
-  intros Z K1 K2. rewrite <- !run_diffx_no_kf. unfold run_diffx.
-  pose proof (ind_all hatom udiff ops P E c Z t1 t2 [] [] K1 K2) as M.
+  intros M D K1 K2. rewrite <- !run_diffx_no_kf. unfold run_diffx.
+  assert (L : live P []) by (unfold live; rewrite not_under_nil; destruct (P []); [left|right]; reflexivity).
+  pose proof (ind_all hatom udiff ops P E c del M D t1 t2 [] [] L K1 K2) as H.
   destruct (diffx hatom udiff ops P E no_kf c t1 t2 [] []) as [es rec].
-  destruct (diffx hatom udiff ops P E no_kf c (prune P [] t1) (prune P [] t2) [] []) as [es' rec'].
-  cbn [fst] in *. rewrite !projs_mutual, M. reflexivity.
+  destruct (diffx hatom udiff ops P E no_kf c (prune del P [] t1) (prune del P [] t2) [] []) as [es' rec'].
+  cbn [fst] in *. rewrite !projs_mutual, H. reflexivity.
 Qed.
 
-Corollary exclude_agree hatom udiff ops P E c t1 t2 t1' t2' :
-  zip c = true ->
+Corollary exclude_agree hatom udiff ops P E c del t1 t2 t1' t2' :
+  zip c = true \/ idx_closed P -> del = false \/ thr_num c = 0 ->
   keys_all key_plain t1 = true -> keys_all key_plain t2 = true ->
   keys_all key_plain t1' = true -> keys_all key_plain t2' = true ->
-  prune P [] t1 = prune P [] t1' -> prune P [] t2 = prune P [] t2' ->
+  prune del P [] t1 = prune del P [] t1' -> prune del P [] t2 = prune del P [] t2' ->
   projs (fst (run_diff hatom udiff ops P E c t1 t2)) = projs (fst (run_diff hatom udiff ops P E c t1' t2')).
 Proof.
-  intros Z K1 K2 K1' K2' E1 E2.
-  rewrite (exclude_independent hatom udiff ops P E c t1 t2 Z K1 K2).
-  rewrite (exclude_independent hatom udiff ops P E c t1' t2' Z K1' K2'). rewrite E1, E2. reflexivity.
+  intros M D K1 K2 K1' K2' E1 E2.
+  rewrite (exclude_independent hatom udiff ops P E c del t1 t2 M D K1 K2).
+  rewrite (exclude_independent hatom udiff ops P E c del t1' t2' M D K1' K2'). rewrite E1, E2. reflexivity.
 Qed.
 
 (* ---- the guard key_plain cannot be dropped: 1 == True is one dictionary key, the level path takes
@@ -344,7 +462,7 @@ Definition w8_t2 := VDict [(ABool true, VDict [(w8_x, VAtom (AInt 2))])].
 Definition w8_c : cfg := mkCfg true 0 1 true.
 
 Lemma exclude_independent_alias_refuted :
-  prune w8_P [] w8_t1 = prune w8_P [] w8_t1' /\
+  prune false w8_P [] w8_t1 = prune false w8_P [] w8_t1' /\
   projs (fst (run_diff w8_h w8_u w8_o w8_P no_skip w8_c w8_t1 w8_t2)) = [(KValue, [PKey (ABool true); PKey w8_x], [PKey (ABool true); PKey w8_x])] /\
   projs (fst (run_diff w8_h w8_u w8_o w8_P no_skip w8_c w8_t1' w8_t2)) = [(KType, [PKey (ABool true)], [PKey (ABool true)])].
 Proof. vm_compute. repeat split; reflexivity. Qed.
@@ -353,6 +471,8 @@ Proof. vm_compute. repeat split; reflexivity. Qed.
 Example independent_guard_example :
   let t := VDict [(AStr [97%N], VList [VAtom (AInt 1); VDict [(AInt 3, VAtom ANone)]]); (ANone, VAtom (AInt 2))] in
   keys_all key_plain t = true /\
-  prune (fun p => path_eqb p [PKey (AStr [97%N]); PIdx 1]) [] t =
-    VDict [(AStr [97%N], VList [VAtom (AInt 1); VAtom ANone]); (ANone, VAtom (AInt 2))].
-Proof. vm_compute. split; reflexivity. Qed.
+  prune false (fun p => path_eqb p [PKey (AStr [97%N]); PIdx 1]) [] t =
+    VDict [(AStr [97%N], VList [VAtom (AInt 1); VAtom ANone]); (ANone, VAtom (AInt 2))] /\
+  prune true (fun p => path_eqb p [PKey ANone]) [] t =
+    VDict [(AStr [97%N], VList [VAtom (AInt 1); VDict [(AInt 3, VAtom ANone)]])].
+Proof. vm_compute. repeat split; reflexivity. Qed.
